@@ -33,6 +33,8 @@ import (
 
 const nC = 3 // correct validators (n=4, f=1 configurations)
 
+const leafCap = 6_000_000
+
 type gstate struct {
 	nd   [nC]*node
 	infl []uint32 // msg.pack()<<2 | receiver slot, ascending
@@ -113,6 +115,7 @@ type searcher struct {
 	leaves      atomic.Int64
 	pruned      atomic.Int64
 	devsTaken   atomic.Int64
+	unstored    atomic.Int64
 	abort       atomic.Bool
 	tasks       []task
 	outMu       sync.Mutex
@@ -470,9 +473,16 @@ func (s *searcher) dfs(g gstate, budget int, trace []opt, split int) {
 			s.abort.Store(true)
 			return
 		}
-		if !s.visit(&g, budget) {
-			s.pruned.Add(1)
-			return
+		// States with no budget left have a single (deterministic) continuation; they are cached like all others
+		// until the cache holds leafCap states, after which only states that still branch are stored (bounds memory;
+		// costs re-walking some benign suffixes, loses nothing).
+		if budget > 0 || s.states.Load() < leafCap {
+			if !s.visit(&g, budget) {
+				s.pruned.Add(1)
+				return
+			}
+		} else {
+			s.unstored.Add(1)
 		}
 		D, cls := s.dflt(&g)
 		if budget > 0 {
